@@ -4,7 +4,7 @@ from __future__ import annotations
 
 from hypothesis import strategies as st
 
-from vlib import build, refcodec, snapshot
+from vlib import iovariants, build, refcodec, snapshot
 from vlib.harness import PropertyViolation, run_property
 
 PROPERTY_ID = "C03"
@@ -83,6 +83,9 @@ def check_project_spec(ctx, spec):
     p = build.make_project(spec)
     snap = snapshot.snap_project(p)
     data = p.read()
+    # "every file the library writes": the other ways of writing (write_to a stream / a file opened
+    # for writing, appending or updating) produce these same bytes, which are decoded below
+    iovariants.writers_agree(p, data, "C03")
     try:
         conform(data, snap, "project")
     except Exception as e:
@@ -101,6 +104,7 @@ def check_module_spec(ctx, ms):
     s = Synth(mod)
     snap = snapshot.snap_synth(s)
     data = s.read()
+    iovariants.writers_agree(s, data, "C03")
     try:
         conform(data, snap, "synth %s" % ms["type"])
     except ChunkFormatError as e:
